@@ -466,6 +466,7 @@ type vfC05Params struct {
 	ClientRate          int
 	EntryRate           int
 	RFC8198, RFC9520    bool
+	Prefetch            int // 0 = off, else the remaining-lifetime percentage below which a hit queues a refresh
 }
 
 func vfC05Config(dir string, p vfC05Params) *config.Config {
@@ -479,6 +480,7 @@ func vfC05Config(dir string, p vfC05Params) *config.Config {
 	cfg.Chaos = p.Chaos
 	cfg.ClientRateLimit = p.ClientRate
 	cfg.RateLimit = p.EntryRate
+	cfg.Prefetch = uint32(p.Prefetch)
 	cfg.EmptyZones = []string{"10.in-addr.arpa."}
 	return cfg
 }
